@@ -25,7 +25,7 @@ def gen(rng, n_cases, max_n=36):
         lo = min(2 * M, n - 1)
         n_survive = int(rng.randint(lo, n)) if k else int(rng.randint(1, n))
         yield {"cls": "rnc", "metric": metric, "n_survive": n_survive, "F": F, "G": np.zeros((n, 0)), "H": np.zeros((n, 0)),
-               "seed": int(rng.randint(2**31 - 1)), "both_engines": bool(rng.randint(3) == 0)}
+               "seed": int(rng.randint(2**31 - 1)), "both_engines": bool(rng.randint(2) == 0)}
 
 
 def case_from_record(rec):
@@ -155,6 +155,22 @@ def oracle_C15(rec):
                 fin = ~np.isinf(rv)
                 if (np.isinf(vals) != np.isinf(rv)).any() or not np.allclose(vals[fin], rv[fin], rtol=1e-7, atol=1e-12):
                     bad.append("cd: crowding values of the split front differ from the crowding-distance definition")
+    # the same clauses for the pure-Python engine (the whole population is one front here)
+    fb = rec.out.get("fallback_surv")
+    if isinstance(fb, list) and rec.cfg.get("trunc") and len(F) > 0:
+        k = len(fb)
+        if k >= 2 * M:
+            KF = F[fb]
+            for m in range(M):
+                if KF[:, m].min() != F[:, m].min() or KF[:, m].max() != F[:, m].max():
+                    bad.append("%s (pure-Python engine): truncation to %d >= 2*%d members lost an extreme of objective %d" % (label, k, M, m))
+                    break
+        nr = len(F) - k
+        uniq = len(np.unique(F, axis=0)) == len(F)
+        if label in ("pcd", "mnn", "2nn") and uniq and not comp_crowd.coordinate_ties(F) and len(F) > M and 0 < nr <= len(F) - 2 * M:
+            _, tie_free, removed = comp_crowd.ref_greedy(F, label, nr + 1)
+            if tie_free and len(removed) == nr and sorted(removed) != sorted(set(range(len(F))) - set(fb)):
+                bad.append("%s (pure-Python engine): dropped members differ from one-at-a-time pruning" % label)
     return bad[:5]
 
 
